@@ -482,7 +482,7 @@ func mutateAll(c *core.Ctx, base []byte, f func(*core.Ctx, []byte, bool)) {
 	}
 }
 
-var c15pathAtoms = []string{"", "a", "b", "doc", "*", "[", "]", "[0]", "[-1]", "[x]", "[99999999999]", "a[1]", "a[0]", "a[", "a]", "a[1][2]", "*[0]", "-", "#text", " ", "é", "a[-3]", "b[2147483648]", "k[]", "[1]a"}
+var c15pathAtoms = []string{"", "a", "b", "doc", "*", "[", "]", "[0]", "[-1]", "[x]", "[99999999999]", "a[1]", "a[0]", "a[", "a]", "a[1][2]", "*[0]", "-", "#text", " ", "é", "a[-3]", "b[2147483648]", "k[]", "[1]a", "a[2147483647]", "a[4294967296]", "a[9223372036854775807]", "a[9223372036854775808]", "a[18446744073709551615]", "b[18446744073709551616]", "wide[9223372036854775807]"}
 var c15subkeys = []string{"", ":", ":x", "k:", "k:v", "!:", "!", "!k:v:bool", "k:v:bool", "k:1:num:x", "k:*", "!k:*", "k:true:bool", "k:x:float", "!:*", "a:b", "::", "!a:1:num", "a:b:string"}
 var c15pairs = []string{"a:.", "doc:..", "a.b:.", "k:...", "doc:.x", "", ":", "a:", ":b", "a:b:c", "a:b", "*:x", "a[0]:b", "a:b.*", "a:b[0]", "a.", ".a", "a..b:c", "doc:doc.x", "doc:n.", "a[-1]:q", "b[x]:q"}
 
@@ -516,7 +516,7 @@ func c15args(c *core.Ctx) {
 		}
 		os.Remove(reg)
 	}
-	keys := []string{"a", "b", "doc", "k", "", "-x", "#text", "*", "a.b", "[0]", "é"}
+	keys := []string{"a", "b", "doc", "k", "", "-x", "#text", "*", "a.b", "[0]", "é", "-", "#"}
 	g := jv.GenOpt{Keys: keys, MaxFan: 3, WideProb: 50, ListInList: true, EmptyConts: true, Nulls: true, Scalars: func(r *rand.Rand) interface{} {
 		switch r.Intn(7) {
 		case 6:
